@@ -143,6 +143,36 @@ pub fn run(ctx: &mut Ctx, _replay: Option<&[String]>) {
             }
         }
     }
+    // seed search inside a ONE-thread rayon pool (all seeds of the range then run one after the other in the same job) on configurations
+    // with finite girth-trial / backtrack budgets: state left behind by a seed that exhausted its budget must not reach the next seed
+    {
+        let pool1 = rayon::ThreadPoolBuilder::new().num_threads(1).build().unwrap();
+        let fixed = mackay_neal::Config { nrows: 30, ncols: 40, wr: 4, wc: 3, backtrack_cols: 0, backtrack_trials: 0, min_girth: Some(6), girth_trials: 20, fill_policy: FillPolicy::Uniform };
+        for k in 0..ctx.scale(40, 1500) {
+            let cfg = if k < 6 { fixed.clone() } else {
+                let nrows = rng.range(8, 30);
+                let wc = rng.range(2, 3);
+                let ncols = rng.range(nrows, nrows + 12);
+                let need = (ncols * wc).div_ceil(nrows);
+                mackay_neal::Config { nrows, ncols, wr: need + rng.below(2), wc, backtrack_cols: rng.below(3), backtrack_trials: rng.range(0, 12),
+                    min_girth: Some(*rng.pick(&[6usize, 6, 8])), girth_trials: rng.range(3, 30),
+                    fill_policy: if rng.chance(1, 2) { FillPolicy::Uniform } else { FillPolicy::Random } }
+            };
+            let start = if k < 6 { [22u64, 24, 20, 16, 23, 18][k] } else { rng.next() % 10_000 };
+            let tries = if k < 6 { [8u64, 16, 10, 12, 4, 9][k] } else { rng.range(4, 24) as u64 };
+            let res = pool1.install(|| cfg.search(start, tries));
+            let out = match res {
+                None => {
+                    let all_fail = (start..start + tries).all(|s| cfg.run(s).is_err());
+                    format!("none {}", if all_fail { "yes" } else { "NO" })
+                }
+                Some((s, h)) => format!("some {} {} {}", s, if s >= start && s < start + tries { "yes" } else { "NO" },
+                    if cfg.run(s).ok().as_ref() == Some(&h) { "yes" } else { "NO" }),
+            };
+            ctx.emit(&format!("c16 search {} {} {}", mn_cfg_str(&cfg), start, tries), &out, true,
+                &[if out.starts_with("some") { "search-one-thread-found" } else { "search-one-thread-none" }]);
+        }
+    }
     // parallel seed search (global rayon pool; the pool size is whatever the environment gives)
     for k in 0..ctx.scale(60, 3000) {
         let cfg = gen_mn(&mut rng, false);
